@@ -13,6 +13,7 @@ import (
 	"github.com/resgateio/resgate/server/metrics"
 	"github.com/resgateio/resgate/server/mq"
 	"github.com/resgateio/resgate/server/reserr"
+	"github.com/resgateio/resgate/server/verifhook"
 )
 
 // Cache is an in memory resource cache.
@@ -292,6 +293,7 @@ func (c *Cache) getSubscription(name string, subscribe bool) (*EventSubscription
 			eventSub.enqueueEvent(subj, payload)
 		})
 		if err != nil {
+			verifhook.Site("sub.toolong", "", name)
 			return nil, err
 		}
 
